@@ -66,6 +66,25 @@ func judgeC16Raw(c c16Case) (string, string) {
 			return "infra", err.Error()
 		}
 	}
+	if c.Dst == "stale-copy" {
+		// what an earlier, unfiltered copy of an earlier version left, kept as a snapshot (cp -al): every regular file of
+		// the source is there with older bytes, and each has a second name F~ on the same inode
+		for _, n := range c.Tree {
+			if n.Kind == fsmodel.Dir {
+				prior = append(prior, n)
+			} else if n.Kind == fsmodel.File && n.HL == 0 {
+				o := n
+				o.Data, o.Mtime, o.HL = []byte("old:"+n.Path), n.Mtime-1000, 1000+len(prior)
+				l := o
+				l.Path = n.Path + "~"
+				prior = append(prior, o, l)
+			}
+		}
+		prior.Sort()
+		if err := fsmodel.Materialize(prior, dst); err != nil {
+			return "infra", err.Error()
+		}
+	}
 	if c.Dst == "conflict" {
 		// the destination holds a directory where the source has a file, and a symlink to a directory
 		// where the source has a directory
@@ -164,8 +183,13 @@ func judgeC16Raw(c c16Case) (string, string) {
 		}
 	}
 	for _, b := range before {
-		if after.Find(b.Path) == nil {
+		a := after.Find(b.Path)
+		if a == nil {
 			return "dest-entry-removed", b.Path + " existed in the destination and is gone"
+		}
+		// an entry of the destination that the source does not even have is not the copy's to change
+		if c.Tree.Find(b.Path) == nil && b.Kind == fsmodel.File && (string(a.Data) != string(b.Data) || a.Perm != b.Perm || a.Mtime != b.Mtime) {
+			return "unselected-dest-entry-touched", fmt.Sprintf("%s is in the destination only, but it changed: %q -> %q", b.Path, b.Data, a.Data)
 		}
 	}
 	got := strings.Join(written, " ")
@@ -312,7 +336,8 @@ func runC16(r *evid.Run) {
 		// always-replace against a destination that conflicts at every top-level name
 		for _, in := range patternLists(1, c10Patterns) {
 			for _, ex := range patternLists(1, c10Patterns) {
-				cases = append(cases, c16Case{Tree: t, Include: in, Exclude: ex, Dst: "conflict", Repl: true}, c16Case{Tree: t, Include: in, Exclude: ex, Dst: "conflict"})
+				cases = append(cases, c16Case{Tree: t, Include: in, Exclude: ex, Dst: "conflict", Repl: true}, c16Case{Tree: t, Include: in, Exclude: ex, Dst: "conflict"},
+					c16Case{Tree: t, Include: in, Exclude: ex, Dst: "stale-copy"})
 			}
 		}
 		if r.Tier != "thorough" {
